@@ -53,6 +53,21 @@ def main():
             diffs += 1
             if diffs <= 5:
                 R.extra.setdefault('correspondence_diffs', []).append({'case': line, 'a': a.decode('utf-8', 'replace'), 'b': b.decode('utf-8', 'replace'), 'impl': io[:300], 'model': mo[:300]})
+    # the same two texts compared through different views (Uri / UriRef / Iri / IriRef)
+    by_text = {}
+    for (k, a, b), c in cmpmap.items():
+        if k in ('uri', 'uriref', 'iri', 'iriref'):
+            by_text.setdefault((a, b), {})[k] = c
+    nviews = 0
+    for (a, b), m in by_text.items():
+        if len(m) > 1:
+            nviews += 1
+            if len(set(m.values())) > 1:
+                nviol += 1
+                if nviol <= 300:
+                    R.violation({'kind': 'the order of two values depends on the view they are compared through', 'a': a.decode('utf-8', 'replace'), 'b': b.decode('utf-8', 'replace'),
+                                 'cmp_by_view': m}, no_input=False)
+    R.extra['texts_compared_through_several_views'] = nviews
     # transitivity of the order on the exhaustive component blocks (all ordered pairs are present there)
     by_kind = {}
     for (k, a, b), c in cmpmap.items():
